@@ -2,6 +2,7 @@ package main
 
 import (
 	"fmt"
+	"strings"
 	"unicode/utf8"
 
 	mono "github.com/SKAARHOJ/rawpanel-lib/ibeam_lib_monogfx"
@@ -25,6 +26,42 @@ type c20in struct {
 }
 
 var c20hist = map[string]map[string]int{}
+
+// Generated cases are buffered per class and written interleaved (proportionally), so that
+// the driver's bounded list of reported failures always holds failures of every class.
+var c20class = -1 // -1: write directly (replay)
+var c20buf [3][]string
+
+func c20emit(v Sx) {
+	if c20class < 0 {
+		emit(v)
+		return
+	}
+	var b strings.Builder
+	sx(&b, v)
+	c20buf[c20class] = append(c20buf[c20class], b.String())
+}
+
+func c20flush() {
+	var pos [3]int
+	for {
+		best, bestFrac := -1, 2.0
+		for k := 0; k < 3; k++ {
+			if pos[k] < len(c20buf[k]) {
+				if f := float64(pos[k]) / float64(len(c20buf[k])); f < bestFrac {
+					best, bestFrac = k, f
+				}
+			}
+		}
+		if best < 0 {
+			break
+		}
+		out.WriteString(c20buf[best][pos[best]])
+		out.WriteString("\n")
+		pos[best]++
+	}
+	c20class = -1
+}
 
 func c20count(k, v string) {
 	m, ok := c20hist[k]
@@ -86,7 +123,7 @@ func c20run(in c20in) {
 	bA := c20render(in, in.h, in.v, in.cx, in.cy)
 	bB := c20render(in, in.h, in.v, in.cx+in.dx, in.cy+in.dy)
 	bC := c20render(in, 1, 1, in.cx, in.cy)
-	emit(L(Sym("txt"), in.font, in.prop, in.spacing, in.h, in.v, in.wrap, in.cx, in.cy, in.dx, in.dy, strl, in.W, in.H,
+	c20emit(L(Sym("txt"), in.font, in.prop, in.spacing, in.h, in.v, in.wrap, in.cx, in.cy, in.dx, in.dy, strl, in.W, in.H,
 		sw, lh, sw1, lh1, ws, bA, bB, bC))
 }
 
@@ -233,6 +270,7 @@ func genC20(tier string, rng *Rng) {
 	thorough := tier == "thorough"
 	// 1. every single character x fonts x modes x spacing 0-3 x sizes 1-4 x 1-4, two cursors each
 	//    (quick: every character/font/mode with a rotating third of the 64 combinations)
+	c20class = 0
 	cursors := [][4]int{{0, 0, 5, 3}, {3, 2, -2, 1}, {9, 5, 4, -5}, {1, 7, -1, -7}}
 	k := 0
 	for f := 0; f < 3; f++ {
@@ -260,6 +298,7 @@ func genC20(tier string, rng *Rng) {
 		}
 	}
 	// 2. boundary strings
+	c20class = 1
 	for f := 0; f < 3; f++ {
 		for _, p := range []bool{true, false} {
 			for _, str := range []string{"", "\r", "\n", "\r\n", "A\nB", "AB", "A\rB", "\nA", "A\n", "\n\n", "W\n\nW", " ", "  A ", "\x00", "Ċ", "AĊB", "\xff", "iiii", "WWWWWWWWWWWWWWWWWWWWWWWW", "~\x7f\x80"} {
@@ -273,6 +312,7 @@ func genC20(tier string, rng *Rng) {
 		}
 	}
 	// 3. random strings, length 0-24, all bytes incl. invalid UTF-8
+	c20class = 2
 	n := 4000
 	if thorough {
 		n = 40000
@@ -312,6 +352,7 @@ func genC20(tier string, rng *Rng) {
 		c20note(in, class)
 		c20run(in)
 	}
+	c20flush()
 	meta(map[string]interface{}{"property": "C20", "input_histograms": c20hist})
 }
 
